@@ -518,6 +518,87 @@ def sec_writeback(rec, patches=None):
             rec.fact("writeback/apply/row-i-from-subtomogram-i", bool(ok), key="C03/apply/row-order", detail={"column": col, "task_owners": owners})
 
 
+def replay_apply(cex):
+    """installed library: apply() of several functions on a loader and on a group: cell (i, j) = function j of sub-tomogram i, also when #functions == #molecules or == 1"""
+    with load.real_modules():
+        from acryo import SubtomogramLoader, Molecules
+
+        rng = np.random.default_rng(0)
+        tomo = rng.normal(size=(30, 30, 30)).astype(np.float32)
+        bad = []
+        for n in (1, 2, 3, 4):
+            pos = rng.uniform(8, 20, size=(n, 3))
+            ld = SubtomogramLoader(tomo, Molecules(pos, features={"g": [0] * n}), order=1, output_shape=(5, 5, 5))
+            sub = ld.asnumpy()
+            for k in (1, 2, 3):
+                fs = [np.mean, np.std, np.max][:k]
+                want = np.array([[f(x) for f in fs] for x in sub])
+                for name, get in (("loader.apply", lambda: ld.apply(fs)), ("group.apply", lambda: ld.groupby("g").apply(fs)[0])):
+                    try:
+                        got = get()
+                        arr = got.to_numpy()
+                        if got.columns != [f.__name__ for f in fs] or arr.shape != want.shape or not np.allclose(arr.astype(float), want, atol=1e-5):
+                            bad.append({"call": name, "molecules": n, "functions": k, "shape": list(arr.shape), "columns": got.columns})
+                    except Exception as e:
+                        bad.append({"call": name, "molecules": n, "functions": k, "raised": repr(e)[:120]})
+        return len(bad) > 0, {"n": len(bad), "examples": bad[:5]}
+
+
+def sec_apply(rec, n=3, k=3, group=False, patches=None):
+    """apply(f_0..f_{k-1}): cell (i, j) of the result table is f_j of the sub-tomogram of molecule i -- also when k == n (a square table) and k == 1; loaders and groups"""
+    L = _load(patches)
+    rec.encodes("acryo/loader/_base.py:LoaderBase.apply", "acryo/loader/_group.py:LoaderGroup.apply", "acryo/loader/_base.py:LoaderBase.construct_mapping_tasks", "acryo/_dask.py:compute")
+    rec.assume("the real polars builds the result frame (its orientation inference for 2-D arrays included)")
+    xp = L.xp
+    tags = [f"m{i}" for i in range(n)]
+    hyps = _hyps(tags)
+    tag = f"apply[n={n},k={k},{'group' if group else 'loader'}]"
+    with L.installed():
+        def run():
+            ld = _single_loader(L, xp, tags, {"g": [7] * n})
+            logs = [[] for _ in range(k)]
+            fns = []
+            for j in range(k):
+                def fn(sub, j=j):
+                    root, coord = _task_identity(sub, hyps)
+                    logs[j].append(coord)
+                    return float(100 * (j + 1) + len(logs[j]))
+
+                fn.__name__ = f"f{j}"
+                fns.append(fn)
+            arg = fns if k > 1 else fns[0]
+            if group:
+                out = ld.groupby("g").apply(arg if k > 1 else [arg])
+                df = out[7]
+            else:
+                df = ld.apply(arg)
+            return df, logs
+
+        for pth in explore(run, assumptions=hyps, max_paths=10):
+            if not pth.ok:
+                ok, det = replay_apply({})
+                rec.fact(f"{tag}/runs", False, key="C03/apply/raises", detail={"exc": repr(pth.exc)[:300], **det}, reproduced=ok)
+                continue
+            df, logs = pth.result
+            oksh = df.columns == [f"f{j}" for j in range(k)] and df.height == n
+            okr, det = (True, {}) if oksh else replay_apply({})
+            rec.fact(f"{tag}/one-row-per-molecule,one-column-per-function", oksh, key="C03/apply/table-shape", detail={"columns": df.columns, "rows": df.height, **det}, reproduced=okr)
+            if not oksh:
+                continue
+            good = True
+            cells = []
+            for j in range(k):
+                owners = [_mol_of_coord(c, tags, hyps, pth.condition()) for c in logs[j]]
+                col = df[f"f{j}"].to_list()
+                for i, v in enumerate(col):
+                    jj, serial = divmod(int(round(float(v))), 100)
+                    ok = jj == j + 1 and 1 <= serial <= len(owners) and owners[serial - 1] == tags[i]
+                    cells.append((i, j, v, ok))
+                    good = good and ok
+            okr, det = (True, {}) if good else replay_apply({})
+            rec.fact(f"{tag}/cell(i,j)=f_j(subtomogram of molecule i)", good, key="C03/apply/row-order", detail={"bad_cells": [c[:3] for c in cells if not c[3]][:6], **det}, reproduced=okr)
+
+
 def sec_batch_binning(rec, patches=None):
     """after BatchLoader.binning(compute=True) of a batch mixing in-memory and dask tomograms, every molecule still reads the (binned) image of its own tomogram (executed by C15's section)"""
     from .c15 import sec_region_batch
@@ -526,12 +607,20 @@ def sec_batch_binning(rec, patches=None):
         sec_region_batch(rec, b=2, compute=True, kinds=kinds, patches=patches)
 
 
+def _apply_sections():
+    out = []
+    for group in (False, True):
+        for (n, k) in ((3, 1), (2, 2), (3, 3), (3, 2), (1, 1), (2, 3)):
+            out.append((f"apply-{'group' if group else 'loader'}-{n}x{k}", "checks.c03", "sec_apply", {"n": n, "k": k, "group": group}))
+    return out
+
+
 def sections(tier):
     S = [("batch-binning-mixed", "checks.c03", "sec_batch_binning", {}), ("single", "checks.c03", "sec_single", {}), ("batch-ops", "checks.c03", "sec_batch_ops", {}), ("group", "checks.c03", "sec_group", {}), ("writeback", "checks.c03", "sec_writeback", {})]
     seqs = [(0, 1, 0, 1), (1, 0), (0, 0, 1), (1, 0, 0), (0, 1, 1, 0)] if quick(tier) else [s for n in (2, 3, 4) for s in itertools.product((0, 1), repeat=n) if len(set(s)) == 2] + [(0, 1, 2, 0), (2, 0, 1, 0), (1, 2, 0, 1)]
     for s in seqs:
         S.append((f"batch-{''.join(map(str, s))}", "checks.c03", "sec_batch", {"ids": s}))
-    return S
+    return S + _apply_sections()
 
 
 _BT = "acryo.loader._batch"
@@ -549,6 +638,8 @@ MUTANTS = [
     ("group:revert-one-shot-fix", "checks.c03", "sec_group", {}, {_LG: [("        return self.__class__([(key, loader.head(n)) for key, loader in self])", "        return self.__class__((key, loader.head(n)) for key, loader in self)")]}),
     ("group:index-column-leaks", "checks.c03", "sec_group", {}, {_LG: [("                molecules=mole.drop_features(index_col_name),", "                molecules=mole,")]}),
     ("group:parent-molecules", "checks.c03", "sec_group", {}, {_LG: [("                molecules=mole.drop_features(index_col_name),", "                molecules=loader.molecules,")]}),
+    ("group-apply:2d-array-to-polars (defect fixed by 2292111)", "checks.c03", "sec_apply", {"n": 2, "k": 2, "group": True}, {"acryo.loader._group": [("            out[key] = pl.DataFrame([np.array(r) for r in result], schema=schema)", "            out[key] = pl.DataFrame(np.array(result), schema=schema)")]}),
+    ("apply:2d-array-transposed-to-polars (seeded change C03_8)", "checks.c03", "sec_apply", {"n": 3, "k": 3, "group": False}, {_LB: [("        df_input = [np.array(r) for r in all_results]\n        return pl.DataFrame(df_input, schema=schema)", "        return pl.DataFrame(np.array(all_results).T, schema=schema)")]}),
     ("apply:rows-reversed", "checks.c03", "sec_writeback", {}, {_LB: [("        df_input = [np.array(r) for r in all_results]", "        df_input = [np.array(r)[::-1] for r in all_results]")]}),
 ]
 
